@@ -71,6 +71,11 @@ type descriptor struct {
 	// WideEnd: the last chain ends in a parallel fork into WideEnd end events
 	// (8..32 flows end at the same moment, the last ones of the instance)
 	WideEnd int `json:"wideEnd,omitempty"`
+	// Restart: when the run is over (completion reported, the cease-flow trace
+	// seen once) the instance is started AGAIN with StartAll and every request
+	// is answered until none comes: however the engine treats that second run,
+	// the cease-flow trace of the instance has been emitted exactly once
+	Restart bool `json:"restart,omitempty"`
 }
 
 func build(d descriptor) *gen.Graph {
@@ -504,6 +509,33 @@ func runCase(d descriptor) *result {
 			return fail("cease-order", fmt.Sprintf("trace %s follows the CeaseFlowTrace", drive.Describe(t)), nil)
 		}
 	}
+	if d.Restart {
+		if err := in.StartAll(); err != nil {
+			return fail("restart", "StartAll on the completed instance: "+err.Error(), nil)
+		}
+		for round := 0; round < 40; round++ {
+			if _, err := in.Quiesce(); err != nil {
+				r.Inconcl = err.Error()
+				return r
+			}
+			ts := in.NewTasks()
+			if len(ts) == 0 {
+				break
+			}
+			for _, tt := range ts {
+				tt.Do()
+			}
+		}
+		n = 0
+		for _, t := range in.Traces() {
+			if _, ok := t.(bpmn.CeaseFlowTrace); ok {
+				n++
+			}
+		}
+		if n != 1 {
+			return fail("cease-count", fmt.Sprintf("the completed instance was started again and run to the end: %d CeaseFlowTrace emitted for the one instance, want exactly 1", n), nil)
+		}
+	}
 	for _, w := range waiters {
 		w.cancel()
 	}
@@ -540,6 +572,7 @@ func draw(rt *rapid.T) descriptor {
 		d.SigStarts = rapid.IntRange(1, 1<<d.Starts-1).Draw(rt, "sigStarts")
 		kinds = append(kinds, "startSignal")
 	}
+	d.Restart = !d.SubDead && !d.Boundary && d.SigStarts == 0 && rapid.IntRange(0, 2).Draw(rt, "restart") == 0
 	for i := 0; i < na; i++ {
 		d.Actions = append(d.Actions, action{Kind: rapid.SampledFrom(kinds).Draw(rt, "kind"), Arg: rapid.IntRange(0, 5).Draw(rt, "arg")})
 	}
